@@ -47,8 +47,15 @@ func genScheme(t *rapid.T) *SchemeSpec {
 	if rapid.IntRange(0, 5).Draw(t, "predef") == 0 {
 		return &SchemeSpec{Predefined: rapid.IntRange(1, 4).Draw(t, "which")}
 	}
-	model := rapid.SampledFrom([]string{"gray", "gray16", "rgba", "nrgba", "cmyk"}).Draw(t, "model")
+	models := []string{"gray", "gray16", "rgba", "nrgba", "cmyk"}
+	model := rapid.SampledFrom(models).Draw(t, "model")
 	s := &SchemeSpec{FG: genColorSpec(t, model, "fg"), BG: genColorSpec(t, model, "bg")}
+	if rapid.IntRange(0, 3).Draw(t, "mixedtypes") == 0 {
+		// arbitrary fore/background: colours whose concrete type differs from what the scheme's model produces
+		s.Model = model
+		s.FG = genColorSpec(t, rapid.SampledFrom(models).Draw(t, "fgmodel"), "fg2")
+		s.BG = genColorSpec(t, rapid.SampledFrom(models).Draw(t, "bgmodel"), "bg2")
+	}
 	if s.FG == s.BG {
 		s.BG.V[0] ^= 1
 		if model == "rgba" && s.BG.V[0] > s.BG.V[3] {
